@@ -8,8 +8,12 @@ import atexit, shutil
 _tmp = tempfile.mkdtemp(prefix="baseline-", dir="/dev/shm" if os.path.isdir("/dev/shm") else None)
 env["TMPDIR"] = _tmp
 atexit.register(shutil.rmtree, _tmp, True)
+_mrf = os.path.join(d, "my_run_folder")  # tests/test_parallel writes this folder into the working directory
+_had_mrf = os.path.exists(_mrf)
 subprocess.run(f"cd {d} && /venv/bin/python -m pytest -q -p no:cacheprovider --timeout=900 --continue-on-collection-errors --no-cov --junitxml={out}",
                shell=True, capture_output=True, env=env)
+if not _had_mrf:
+    shutil.rmtree(_mrf, ignore_errors=True)
 b = json.load(open("/root/.vp/BASELINE.json"))
 passed = set()
 for tc in ET.parse(out).getroot().iter("testcase"):
